@@ -23,6 +23,8 @@ pub(crate) struct PhoneticMethod {
     modified: SystemTime,
     // Previously selected candidate index of the current suggestion list.
     prev_selection: usize,
+    // Length of the previously returned suggestion list.
+    prev_len: usize,
 }
 
 impl PhoneticMethod {
@@ -56,6 +58,7 @@ impl PhoneticMethod {
             selections,
             modified,
             prev_selection: 0,
+            prev_len: 0,
         }
     }
 
@@ -67,6 +70,7 @@ impl PhoneticMethod {
                     .suggest(&self.buffer, data, &mut self.selections, config);
 
             self.prev_selection = selection;
+            self.prev_len = suggestions.len();
 
             Suggestion::new(
                 self.buffer.clone(),
@@ -97,20 +101,32 @@ impl Method for PhoneticMethod {
             None if self.buffer.is_empty() => return Suggestion::empty(),
             None => return self.create_suggestion(data, config),
         };
+        // Length of the list the caller's `selection` refers to (nothing was shown yet if the buffer is empty).
+        let shown_len = if self.buffer.is_empty() {
+            0
+        } else {
+            self.prev_len
+        };
         self.buffer.push(character);
         let mut suggestion = self.create_suggestion(data, config);
 
         // Preserve user's selection if the keypress was a punctuation mark
         if let Suggestion::Full {
             selection: ref mut sel,
+            ref suggestions,
             ..
         } = suggestion
         {
+            let selection = usize::from(selection);
+            // A selection which was valid for the shown list may not fit in the new (shorter) one.
+            let outdated = selection < shown_len && selection >= suggestions.len();
+
             if matches!(
                 character,
                 '.' | '?' | '!' | ',' | ':' | ';' | '-' | '_' | ')' | '}' | ']' | '\'' | '"'
-            ) {
-                *sel = selection.into();
+            ) && !outdated
+            {
+                *sel = selection;
             }
         }
 
@@ -193,6 +209,7 @@ impl Default for PhoneticMethod {
             selections: HashMap::with_hasher(RandomState::new()),
             modified: SystemTime::UNIX_EPOCH,
             prev_selection: 0,
+            prev_len: 0,
         }
     }
 }
